@@ -134,14 +134,15 @@ void pose_cov(vf::Ctx& c, size_t it) {
 template <class S> void ls_cov(vf::Ctx& c, const char* tname) {
   using Mat = Eigen::Matrix<S, Eigen::Dynamic, Eigen::Dynamic>; using Vec = Eigen::Matrix<S, Eigen::Dynamic, 1>;
   using LM = Eigen::Matrix<long double, Eigen::Dynamic, Eigen::Dynamic>;
-  for (int p = 1; p <= 6; ++p) for (int n : {p, p + 3, 40}) for (int solver = 0; solver < 2; ++solver) for (int prec = 0; prec < 3; ++prec) {
+  std::vector<S> scales = std::is_same<S, double>::value ? std::vector<S>{(S)1, (S)(1.0 / 131072), (S)1024} : std::vector<S>{(S)1, (S)(1.0 / 64), (S)64};
+  for (S jscale : scales) for (int p = 1; p <= 6; ++p) for (int n : {p, p + 3, 40}) for (int solver = 0; solver < 2; ++solver) for (int prec = 0; prec < 3; ++prec) {
     // two problems in a row on one solver object: the covariance must belong to the last one solved
     LeastSquares<S> ls(p);
     Mat Jk; Vec diag(p);
     for (int round = 0; round < 2; ++round) {
       ls.setDataSize(n);
       Jk = Mat(n, p);
-      for (int i = 0; i < n; ++i) for (int j = 0; j < p; ++j) Jk(i, j) = (S)(std::cos(0.7 * (i + 1) * (j + 1) + round) + (i == j ? 2.0 : 0.0) + 0.1 * round * j);
+      for (int i = 0; i < n; ++i) for (int j = 0; j < p; ++j) Jk(i, j) = jscale * (S)(std::cos(0.7 * (i + 1) * (j + 1) + round) + (i == j ? 2.0 : 0.0) + 0.1 * round * j);
       ls.getJ().topRows(n) = Jk;
       for (int i = 0; i < n; ++i) ls.getY()(i) = (S)(std::sin(1.3 * i + round));
       for (int j = 0; j < p; ++j) diag(j) = prec == 0 ? (S)1 : prec == 1 ? (S)(0.5 + j) : (S)(j % 2 ? 1e-3 : 1e3);
@@ -162,7 +163,7 @@ template <class S> void ls_cov(vf::Ctx& c, const char* tname) {
     c.eval(); c.nontrivial();
     for (int i = 0; i < p * p; ++i) c.obs((double)cov(i / p, i % p));
     c.note_max(std::string("ls_cov_err_over_tol_") + tname, (double)(err / tol));
-    std::string params = vf::JO().str("type", tname).i("estimate_size", p).i("data_size", n).str("solver", solver ? "SVD" : "Cholesky").i("preconditioner", prec).num("kappa_J", kappa).done();
+    std::string params = vf::JO().str("type", tname).num("design_matrix_scale", jscale).i("estimate_size", p).i("data_size", n).str("solver", solver ? "SVD" : "Cholesky").i("preconditioner", prec).num("kappa_J", kappa).done();
     if (kappa * kappa * eps > 1e-2L) { c.trivial(); continue; }
     if (!(err <= tol)) c.violation("LeastSquares.computeEstimateCovariance", params, vf::JO().num("rel_err", err).num("tol", tol).done());
     if (c.want_sample()) c.sample(params);
@@ -186,7 +187,7 @@ std::string vf_describe(const std::string& tier) {
   o.vec("roll_yaw", rollyaw()).vec("pitch", pitches());
   o.str("finite_differences", "central differences with Richardson extrapolation (h=1e-4, 5e-5) of the library's own R() and operator*(Affine3d,Pose3D); tolerance 1e-7 absolute (rotation derivatives), 1e-6 relative (covariances)");
   o.u("transforms", transforms().size()).u("attitudes", attitudes().size()).u("covariances", cov_catalogue().size());
-  o.str("least_squares", "estimate size 1..6, data size {p,p+3,40}, Cholesky and SVD, preconditioner {none, diag(0.5+j)+offset, diag(1e3/1e-3)+offset}, second problem on a reused solver; float and double; tolerance 64 eps kappa(J)^2");
+  o.str("least_squares", "estimate size 1..6, data size {p,p+3,40}, Cholesky and SVD, preconditioner {none, diag(0.5+j)+offset, diag(1e3/1e-3)+offset}, second problem on a reused solver; design matrix magnitude {1, 2^-17, 2^10} (float {1, 2^-6, 2^6}); float and double; tolerance 64 eps kappa(J)^2");
   return o.done();
 }
 
